@@ -285,8 +285,8 @@ def search(res, tier, boost=False):
     returned = refused = 0
     for f, cls in two_fams:
         tab = set(tuple(e['key']) for e in fams.get(f, []))
-        for a in range(0, hi):
-            for b in range(0, hi):
+        for a in range(-1, hi):
+            for b in range(-1, hi):
                 if (a, b) in tab:
                     continue                      # tabulated keys are checked above at both precisions
                 res.count(('sweep', f, a, b), False)
@@ -317,8 +317,8 @@ def search(res, tier, boost=False):
     # the scheme constructors on every degree of the grid (they map a degree to a key)
     for ctor, cls in (('log_quadrature_scheme', 'log'), ('log_log_quadrature_scheme', 'loglog'),
                       ('sqrt_quadrature_scheme', 'sqrt'), ('sqrtinv_quadrature_scheme', 'sqrtinv')):
-        for a in range(0, hi, 1):
-            for b in range(0, hi, 1):
+        for a in range(-1, hi, 1):
+            for b in range(-1, hi, 1):
                 if (ctor, (a, b), cls) in reqset:
                     continue
                 try:
